@@ -461,8 +461,15 @@ def replay_file(path: str, quiet=False) -> int:
                     f"same class as recorded: {same}; "
                     f"event-log digest identical: {digest_same}"
                 )
-            print(f"VIOLATION property={prop} replay={os.path.abspath(path)}")
-            code = EXIT_VIOLATION
+            listed = [f for f in load_known(prop) if f["class"] == v.cls]
+            if listed:
+                # a recorded, not repaired defect of the library: reported,
+                # not alarmed about
+                print(f"KNOWN-FINDING: property={prop} {listed[0]['what']}")
+                code = EXIT_OK
+            else:
+                print(f"VIOLATION property={prop} replay={os.path.abspath(path)}")
+                code = EXIT_VIOLATION
         else:
             if not quiet:
                 print(
